@@ -690,5 +690,91 @@ def rule_r6(ctx) -> RuleResult:
     return rr
 
 
+# what the template branch may do to the expanded text of `name[:arg]` before the first argument is cut out of it
+NAME_TEXT_STEPS = {
+    ("re.sub", r"<noinclude\s*/>", ""): "an empty <noinclude/> is invisible in the name",
+    ("strip",): "surrounding white space",
+    ("removeprefix", "safesubst:"): "substitution modifier",
+    ("removeprefix", "SAFESUBST:"): "substitution modifier",
+    ("removeprefix", "subst:"): "substitution modifier",
+    ("removeprefix", "SUBST:"): "substitution modifier",
+}
+
+
+def rule_r7(ctx) -> RuleResult:
+    """The first argument of `{{fn:arg|...}}` is a piece of the same string as the function name (`tname[ofs + 1:]`).  Whatever
+    the template branch does to that string before the split is done to the argument of every parser function: the steps are
+    confined to the enumerated ones, which cannot change an argument (seed C18-7B: collapsing `_` and white-space runs "in the
+    name" makes {{#len:_}} 0 and {{lc:Foo_Bar}} `foo bar`)."""
+    from . import _expand as X
+
+    rr = RuleResult("C18.R7", "the text the first argument of a parser function is cut from is only stripped of modifiers", min_instances=4)
+    tb = X.template_branch(ctx)
+    uses = [n for st in tb for n in ast.walk(st) if isinstance(n, ast.Call) and unparse(n.func) == "expand_parserfn" and len(n.args) >= 2]
+    if not uses:
+        raise AnalysisError("template branch: expand_parserfn(...) call not found")
+    srcs = {x.id for u in uses for x in ast.walk(u.args[1]) if isinstance(x, ast.Name)}
+    assigns = [n for st in tb for n in ast.walk(st) if isinstance(n, ast.Assign) and len(n.targets) == 1 and isinstance(n.targets[0], ast.Name)
+               and n.targets[0].id in srcs and n.lineno < uses[0].lineno]
+    name_var = None
+    for a in assigns:
+        if isinstance(a.value, ast.Call) and unparse(a.value.func) == "expand_recurse":
+            name_var = a.targets[0].id
+    if name_var is None:
+        raise AnalysisError("template branch: the variable holding the expanded `name:arg` text was not recognised")
+
+    def steps(e, recv_name):
+        """operations applied to recv_name inside e, outermost last"""
+        if isinstance(e, ast.Name):
+            return [] if e.id in recv_name else None
+        if isinstance(e, ast.Call) and unparse(e.func) == "re.sub" and len(e.args) == 3:
+            inner = steps(e.args[2], recv_name)
+            if inner is None:
+                return None
+            key = ("re.sub",) + tuple(a.value if isinstance(a, ast.Constant) else "?" for a in e.args[:2])
+            return inner + [(key, e)]
+        if isinstance(e, ast.Call) and isinstance(e.func, ast.Attribute):
+            inner = steps(e.func.value, recv_name)
+            if inner is None:
+                return None
+            key = (e.func.attr,) + tuple(a.value for a in e.args if isinstance(a, ast.Constant))
+            return inner + [(key, e)]
+        return None
+
+    # the name text may travel through aliases (`t2 = tname; t2 = re.sub(.., t2); tname = t2.strip()`): every local that is
+    # computed from a member of the family by such steps joins it
+    family = {name_var}
+    start = min(a.lineno for a in assigns if a.targets[0].id == name_var and isinstance(a.value, ast.Call) and unparse(a.value.func) == "expand_recurse")
+    chain_assigns = sorted([n for st in tb for n in ast.walk(st) if isinstance(n, ast.Assign) and len(n.targets) == 1 and isinstance(n.targets[0], ast.Name)
+                            and start < n.lineno < uses[0].lineno], key=lambda n: n.lineno)
+    # backwards: which locals carry the text that is finally sliced (`tname[ofs + 1:]`)?
+    need = {x.value.id for u in uses for x in ast.walk(u.args[1]) if isinstance(x, ast.Subscript) and isinstance(x.value, ast.Name)} or {name_var}
+    for a in reversed(chain_assigns):
+        if a.targets[0].id in need:
+            need |= {x.id for x in ast.walk(a.value) if isinstance(x, ast.Name)}
+    for a in chain_assigns:
+        if isinstance(a.value, ast.Call) and unparse(a.value.func) == "expand_recurse":
+            continue
+        if a.targets[0].id not in need:
+            continue
+        st_ = steps(a.value, family)
+        if st_ is not None:
+            family.add(a.targets[0].id)
+        elif a.targets[0].id not in family:
+            continue
+        if st_ is None:
+            rr.bad(Finding("C18.R7", "src/wikitextprocessor/core.py", X.RECURSE, unparse(a)[:80],
+                           "the text that holds the parser function's first argument is recomputed from something else", a.lineno))
+            continue
+        for key, node in st_:
+            if key in NAME_TEXT_STEPS:
+                rr.ok(X.RECURSE, "{}: {}".format(unparse(node)[-50:], NAME_TEXT_STEPS[key]))
+            else:
+                rr.bad(Finding("C18.R7", "src/wikitextprocessor/core.py", X.RECURSE, unparse(node)[:90],
+                               "this rewrites the whole `name:argument` text before the first argument is cut out of it, so the argument of every "
+                               "parser function is rewritten too ({{{{#len:_}}}}, {{{{lc:Foo_Bar}}}}, {{{{urlencode:a_b}}}})", node.lineno))
+    return rr
+
+
 def run(ctx) -> list:
-    return [rule_r1(ctx), rule_r2(ctx), rule_r3(ctx), rule_r4(ctx), rule_r5(ctx), rule_r6(ctx)]
+    return [rule_r1(ctx), rule_r2(ctx), rule_r3(ctx), rule_r4(ctx), rule_r5(ctx), rule_r6(ctx), rule_r7(ctx)]
